@@ -160,6 +160,11 @@ func runAt(feature xmpp.StreamFeature, cfg clientCfg, location, origin jid.JID, 
 				return "", nil
 			}
 			phase = 2
+			if h := whileWaitingForProceed; h != nil {
+				// another session is negotiated while this one waits for the answer
+				whileWaitingForProceed = nil
+				h()
+			}
 			a := answers[answer]
 			if strings.HasPrefix(a.name, "proceed") && a.name != "proceed-then-plaintext" {
 				tlsMode = true
@@ -355,8 +360,13 @@ func scenarioBody(c *nd.Ctx) nd.Result {
 }
 
 // history: one StartTLS(nil) value reused for sessions of different domains.
+// whileWaitingForProceed, if set, runs once when a session's peer has received
+// the STARTTLS request and has not answered yet.
+var whileWaitingForProceed func()
+
 func historyBody(c *nd.Ctx) nd.Result {
 	n := 2 + c.Choose(2, "sessions")
+	overlap := c.Choose(2, "second-session-negotiated-while-the-first-waits-for-proceed") == 1
 	domains := []string{"example.com", "example.org", "other.example"}
 	order := c.Choose(3, "first-domain")
 	list := c.Choose(4, "first-features") // starttls required / optional / empty list / mechanisms only
@@ -372,14 +382,34 @@ func historyBody(c *nd.Ctx) nd.Result {
 	desc := fmt.Sprintf("%d sessions negotiated with one StartTLS(nil) value (one Negotiator value: %v), starting with domain %s, first list %s", n, reuseNegotiator, domains[order], firstLists[list].name)
 	c.Note("%s", desc)
 	res := nd.Result{Outcome: "history", NonTrivial: desc}
-	for i := 0; i < n; i++ {
+	if overlap {
+		desc += "; sessions overlap: each later one is negotiated while the one before waits for the answer to its STARTTLS request"
+		res.NonTrivial = desc
+	}
+	obsOf := make([]observation, n)
+	var runSession func(i int)
+	runSession = func(i int) {
 		d := domains[(order+i)%3]
 		location := jid.MustParse(d)
 		if otherLocation {
 			// the stream is opened to a host that is not the domain of our address
 			location = jid.MustParse("xmpp-host." + d)
 		}
-		obs := runAt(f, clientCfg{}, location, jid.MustParse("me@"+d+"/r"), list, 0)
+		if overlap && i+1 < n {
+			whileWaitingForProceed = func() { runSession(i + 1) }
+		}
+		obsOf[i] = runAt(f, clientCfg{}, location, jid.MustParse("me@"+d+"/r"), list, 0)
+		whileWaitingForProceed = nil
+	}
+	if overlap {
+		runSession(0)
+	}
+	for i := 0; i < n; i++ {
+		d := domains[(order+i)%3]
+		if !overlap {
+			runSession(i)
+		}
+		obs := obsOf[i]
 		if obs.panic != nil {
 			res.Violation = &nd.Violation{Sig: "starttls:" + obs.panic.Sig(), Msg: desc + ": panic " + obs.panic.Value}
 			return res
